@@ -333,6 +333,20 @@ func condEffectD(cond ssa.Value, A map[ssa.Value]bool, in efState, cfg errFlowCf
 		return t, in
 	case *ssa.Call:
 		name := staticCalleeName(c.Common())
+		// a repo helper that is handed the tracked error and answers with a boolean: what is known about the error
+		// where the helper returned true is what the helper itself established on its true-returning paths
+		if g := c.Call.StaticCallee(); g != nil && g.Blocks != nil && g.Pkg != nil && strings.Contains(g.Pkg.Pkg.Path(), "foxglove/mcap") && depth < 4 {
+			if res := g.Signature.Results(); res.Len() == 1 && types.Identical(res.At(0).Type().Underlying(), types.Typ[types.Bool]) {
+				for i, a := range c.Call.Args {
+					if A[a] && i < len(g.Params) {
+						if in == stZ {
+							return stZ, stZ
+						}
+						return helperTrueState(g, g.Params[i], in, cfg, depth+1), in
+					}
+				}
+			}
+		}
 		if (name == "errors.Is" || name == "errors.As") && len(c.Call.Args) == 2 && A[c.Call.Args[0]] {
 			if in == stZ {
 				return stZ, stZ
@@ -352,6 +366,92 @@ func condEffectD(cond ssa.Value, A map[ssa.Value]bool, in efState, cfg errFlowCf
 		}
 	}
 	return
+}
+
+// helperTrueState: the weakest knowledge about parameter prm (entering in state in) over all paths of g that may
+// return true.
+func helperTrueState(g *ssa.Function, prm ssa.Value, in efState, cfg errFlowCfg, depth int) efState {
+	best := efState(-1)
+	A := aliasSet(g, prm)
+	helperReturns(g, A, in, cfg, depth, func(x *ssa.Return, st0 efState) {
+		st := st0
+		if bv, ok := boolConst(x.Results[0]); ok {
+			if !bv {
+				return
+			}
+		} else {
+			t, _ := condEffectD(x.Results[0], A, st0, cfg, depth)
+			st = t
+		}
+		if st > best {
+			best = st
+		}
+	})
+	if best < 0 {
+		return in
+	}
+	return best
+}
+
+// helperConversion: g is handed the tracked error (state in) and returns an error; a description if on some path it
+// answers a non-nil, unclassified error with nil or (reader side) io.EOF.
+func helperConversion(g *ssa.Function, prm ssa.Value, in efState, cfg errFlowCfg) string {
+	A := aliasSet(g, prm)
+	idx, ok := sigReturnsError(g.Signature)
+	if !ok {
+		return ""
+	}
+	msg := ""
+	helperReturns(g, A, in, cfg, 1, func(x *ssa.Return, st efState) {
+		if st != stN && st != stU {
+			return
+		}
+		rv := x.Results[idx]
+		if isNilConst(rv) {
+			msg = "helper " + funcName(g) + " answers a non-nil error with nil"
+		} else if cfg.forbidEOF && globalLoad(rv) == "io.EOF" {
+			msg = "helper " + funcName(g) + " converts a non-nil, unclassified error to a clean io.EOF"
+		}
+	})
+	return msg
+}
+
+// helperReturns walks g forward from its entry with the tracked parameter in state in and calls visit at every return
+// with the state reached there (weakest over the paths explored).
+func helperReturns(g *ssa.Function, A map[ssa.Value]bool, in efState, cfg errFlowCfg, depth int, visit func(*ssa.Return, efState)) {
+	entry := map[*ssa.BasicBlock]efState{}
+	seen := map[*ssa.BasicBlock]bool{}
+	type item struct {
+		b  *ssa.BasicBlock
+		st efState
+	}
+	work := []item{{g.Blocks[0], in}}
+	seen[g.Blocks[0]] = true
+	entry[g.Blocks[0]] = in
+	push := func(b *ssa.BasicBlock, st efState) {
+		if seen[b] && entry[b] >= st {
+			return
+		}
+		seen[b] = true
+		if st > entry[b] {
+			entry[b] = st
+		}
+		work = append(work, item{b, entry[b]})
+	}
+	for len(work) > 0 {
+		it := work[len(work)-1]
+		work = work[:len(work)-1]
+		switch x := it.b.Instrs[len(it.b.Instrs)-1].(type) {
+		case *ssa.If:
+			t, f := condEffectD(x.Cond, A, it.st, cfg, depth)
+			push(it.b.Succs[0], t)
+			push(it.b.Succs[1], f)
+		case *ssa.Jump:
+			push(it.b.Succs[0], it.st)
+		case *ssa.Return:
+			visit(x, it.st)
+		}
+	}
 }
 
 func isAbortCall(c *ssa.CallCommon) bool {
@@ -481,6 +581,20 @@ func flowOne(p *Program, fn *ssa.Function, site *ssa.Call, e ssa.Value, cfg errF
 						report(in, "non-nil error is converted to success (returns nil error)")
 					} else if cfg.forbidEOF && globalLoad(rv) == "io.EOF" {
 						report(in, "non-nil, unclassified error is converted to a clean io.EOF")
+					}
+				}
+				if st == stU || st == stN {
+					// the error is handed to a repo helper whose result is returned: the helper must not lose it either
+					if hc, ok := rv.(*ssa.Call); ok {
+						if g := hc.Call.StaticCallee(); g != nil && g.Blocks != nil && p.isRepoFunc(g) {
+							for i, a := range hc.Call.Args {
+								if A[a] && i < len(g.Params) {
+									if msg := helperConversion(g, g.Params[i], stN, cfg); msg != "" {
+										report(in, msg)
+									}
+								}
+							}
+						}
 					}
 				}
 			case *ssa.If:
